@@ -171,8 +171,9 @@ Definition restart_at (r : breader) (i : nat) : N := nth i (br_restarts r) 0.
 Definition it_to_restart (r : breader) (it : bit) (i : nat) : bit :=
   it_invalidate (it_set_pos it (restart_at r i)).
 
+(* Iterator.Valid (after f30cabd): currentKey != nil; a decoded key, empty or not, is valid *)
 Definition it_valid (it : bit) : bool :=
-  match it_key it with Some (_ :: _) => true | _ => false end.
+  match it_key it with Some _ => true | None => false end.
 
 Definition it_seek_first (r : breader) (it : bit) : bit :=
   let it := it_set_init it in
